@@ -249,6 +249,10 @@ def chk_run(ctx, members, m, n):
         with quiet():
             again_dict = BM.bisc(A_dict, m, n)
             again_list = BM.bisc(A_list, m, n)
+            verbose = BM.bisc(A_dict, m, n, report=True)
+        ctx.ev()
+        if sorted((q[0], tuple(sorted(q[1]))) for q in sg_plain(verbose)) != sorted((q[0], tuple(sorted(q[1]))) for q in sg_plain(out_dict)):
+            report("run", CURRENT[0], "bisc(..., report=True) returns a different output than report=False")
         ctx.ev()
         ctx.count("repeat_calls.compared")
         same = lambda x, y: sorted((q[0], tuple(sorted(q[1]))) for q in sg_plain(x)) == sorted((q[0], tuple(sorted(q[1]))) for q in sg_plain(y))  # noqa: E731
